@@ -68,6 +68,14 @@ Theorem retry_schedule_irrelevant : forall cfg ctx0 script s1 s2,
 Proof. exact run_sched_irrelevant. Qed.
 Print Assumptions retry_schedule_irrelevant.
 
+(* The value reported by context.Cause (cancel cause, timeout / deadline cause, a parent's cause) is data that
+   influences nothing: same invocations, same result — in particular the result's kind is cancelled / timeout
+   according to ctx.Err() whatever the cause. *)
+Theorem context_cause_irrelevant : forall cfg c ctx0 script sched,
+  run (with_cause cfg c) ctx0 script sched = run cfg ctx0 script sched.
+Proof. exact run_cause_irrelevant. Qed.
+Print Assumptions context_cause_irrelevant.
+
 (* A disabled policy: exactly one invocation, its error handed through unchanged. *)
 Theorem disabled_policy_single_attempt : forall cfg ctx0 script sched,
   c_enabled cfg = false ->
@@ -153,7 +161,7 @@ Example waits_ex :
   plain Linear 1000000000 1000000000 (2 ^ 40) o_ex = max_i64.
 Proof. vm_compute. repeat split; reflexivity. Qed.
 
-Definition cfg_ex : rcfg := mkCfg true 3 false CtxCancel.
+Definition cfg_ex : rcfg := mkCfg true 3 false CtxCancel 7.
 Example run_ex :
   run cfg_ex false [mkAtt (ORetriable (EPlain 0)) false false; mkAtt (ORetriable (EPlain 1)) false false;
                     mkAtt (ORetriable (EPlain 2)) false false; mkAtt OSucc false false] []
